@@ -260,7 +260,7 @@ def _configure():
     cfg("C12", "proof", ["A7", "A8", "A10", "A12", "A13"], assumptions=[A["A7"], A["A8"]], not_reached=[NR_SQL, "the wall clock (A10)", "configuration wiring in main (C17)"],
         explanation="threshold functions equal floor(3t/2)/t spec for ALL targets without overflow (Verus over all i64/u32), urgency = max of both from the pre-request record (av.urgency), counter bumped by add_version_spec and reset by new_snap (storage contract)",
         legs=[EXPLORE, KANI_URGENCY, SQLCONF, STANDINS, XCHECK])
-    cfg("C13", "exploration", ["A13"], not_reached=["the SQLite side is ONLY bounded; proved part: server.rs never calls storage outside the documented preconditions (st.*.pre call-site obligations) and the contract is functional"],
+    cfg("C13", "exploration", ["A5", "A13"], not_reached=["what SQLite does with a statement is ONLY bounded; proved parts: server.rs never calls storage outside the documented preconditions (st.*.pre call-site obligations), the contract is functional, inmemory.rs refines it (U2), and on the SQLite side the values the Rust code binds to its statements and the way it decodes a client row (units U5, U6: enc.*, dec.client)"],
         explanation="bounded: the same executable contract is the oracle for all three backend configurations (in-memory, SQLite, SQLite re-opened before every request), so equal histories give equal responses up to ids/clock",
         legs=[EXPLORE, SQLCONF, XCHECK])
     cfg("C14", "proof", ["A9", "A11", "A13"], assumptions=[A["A9"]], not_reached=[NR_HTTP],
